@@ -29,7 +29,7 @@ BUILT={
         "close() is called while connections are in generated states (in-flight stayer/leaver, half-read 4 MiB response, idle keep-alive, half-sent request); handlers are released 0-120 ms after close() was called. Stayers must read complete correct responses; Completed(id) of every in-flight handler and of every detached handler must precede CloseReturned in the log; connect() to the old address must be refused afterwards; close() and 1-3 wait_for_shutdown() futures must resolve to the same result.",
         "Sampling of schedules; liveness only within a 30 s bound.",
         "DESIGN.md section 4 C17"),
-"C18": ("proptest over batches of hostile connection scripts on raw TCP (random bytes, truncation at generated/every offset, 22 constructed-malformed requests, oversized requests, HTTP/2 garbage, TLS hello, panicking handler) with interleaved health probes; strict response grammar oracle",
+"C18": ("proptest over batches of hostile connection scripts on raw TCP (random bytes, truncation at generated/every offset, 24 constructed-malformed requests, oversized requests, HTTP/2 garbage, TLS hello, panicking handler) with interleaved health probes; strict response grammar oracle",
         "Everything the server sends back must parse under the harness' own strict HTTP/1.1 response grammar; requests malformed by the grammar must be answered >= 400 (or not at all); a health request on a fresh connection during and after every batch must return 200 'ok'; every truncation offset of four fixed valid requests is enumerated (every 7th in quick) with FIN and RST; the server must close cleanly at the end.",
         "No coverage-guided fuzzing here (server state must persist across inputs); spellings lenient HTTP parsers accept are not required to be refused; shutdown liveness reported as inconclusive.",
         "DESIGN.md section 4 C18"),
